@@ -645,7 +645,7 @@ class MisuseMonitor(Monitor):
             return
         eng0 = st.eng
         # the engine's reaction to a call depends on the engine state only: one check per distinct engine state
-        ekey = ex.canon(st)[:6]
+        ekey = ex.canon(st)[:6] + (st.dv.running,)
         if ekey in self.seen:
             return
         self.seen.add(ekey)
@@ -656,7 +656,9 @@ class MisuseMonitor(Monitor):
             return
         self.checked = getattr(self, 'checked', 0) + 1
         ready = eng0.query_ready_to_run()
-        running = eng0.query_jobs_running()
+        # which finish reports are illegal is decided by the events the driver delivered, not by what the engine reports
+        # as running (a stale report must not make the monitor skip the very call that is illegal)
+        running = set(st.dv.running)
         cleanup = eng0.query_ready_for_cleanup()
         calls = [('startup', None)]
         for j in uni.ids:
